@@ -58,7 +58,7 @@ fn script() -> impl Strategy<Value = Script> {
                 Just(b"GET".to_vec()),
              ], end()).prop_map(|(b, e)| Script::RandomBytes(b, e)),
         4 => (0u8..4, 0u32..1000, end()).prop_map(|(which, cut, end)| Script::Truncated { which, cut, absolute: false, end }),
-        5 => (0u8..22, end()).prop_map(|(k, e)| Script::Malformed(k, e)),
+        5 => (0u8..24, end()).prop_map(|(k, e)| Script::Malformed(k, e)),
         1 => (0u8..4).prop_map(Script::Oversized),
         1 => proptest::collection::vec(any::<u8>(), 0..100).prop_map(Script::H2Garbage),
         1 => Just(Script::TlsHello),
@@ -83,7 +83,7 @@ pub fn valid_request(which: u8, id: u64) -> Vec<u8> {
     }
 }
 
-const N_MALFORMED: u8 = 22;
+const N_MALFORMED: u8 = 24;
 
 pub fn malformed_request(k: u8) -> (Vec<u8>, &'static str) {
     let h = "host: verif\r\n";
@@ -109,7 +109,19 @@ pub fn malformed_request(k: u8) -> (Vec<u8>, &'static str) {
         18 => (format!("GET  /health HTTP/1.1\r\n{}\r\n", h).into_bytes(), "two spaces in the request line"),
         19 => (format!("GET /health HTTP/1.1\r\n{}x-a: b\r\n c\u{0}\r\n\r\n", h).into_bytes(), "NUL in a folded header line"),
         20 => (format!("GET /%zz%\u{7f} HTTP/1.1\r\n{}\r\n", h).into_bytes(), "DEL in the target"),
-        _ => (format!("POST /upload?id=1&max_ms=0 HTTP/1.1\r\n{}content-length: 18446744073709551616\r\n\r\nabc", h).into_bytes(), "content-length overflow"),
+        21 => (format!("POST /upload?id=1&max_ms=0 HTTP/1.1\r\n{}content-length: 18446744073709551616\r\n\r\nabc", h).into_bytes(), "content-length overflow"),
+        22 => {
+            let mut r = format!("PUT /typed HTTP/1.1\r\n{}content-length: 7\r\ncontent-type: application/json", h).into_bytes();
+            r.extend_from_slice(&[0xff, 0xfe]);
+            r.extend_from_slice(b"\r\n\r\n{\"a\":1}");
+            (r, "Content-Type value with bytes that are not text, on a typed-body endpoint")
+        }
+        _ => {
+            let mut r = format!("PUT /typed HTTP/1.1\r\n{}content-length: 7\r\ncontent-type: ", h).into_bytes();
+            r.extend_from_slice(&[0x80, 0xc3, 0x28]);
+            r.extend_from_slice(b"\r\n\r\n{\"a\":1}");
+            (r, "Content-Type value that is only non-text bytes, on a typed-body endpoint")
+        }
     };
     (s, what)
 }
@@ -335,7 +347,7 @@ fn check_batch(live: &Live, rt: &tokio::runtime::Runtime, batch: &Vec<Script>, s
 }
 
 pub fn run(ctx: &mut Ctx) {
-    ctx.rule = "batches of 1-8 concurrent connection scripts over raw TCP: random bytes; valid requests (4 shapes) cut at a generated offset (thorough: every offset) then FIN/RST/silence; 22 constructed-malformed requests (illegal method/target/version tokens, control bytes and missing colon in headers, non-numeric/conflicting/negative/overflowing content-length, bad chunk lines); oversized but well-formed requests (200 KiB header, 2000 headers, 100 KiB target, 3 MiB body); HTTP/2 preface + garbage; TLS ClientHello; request to a panicking handler; bogus upgrade attempts; valid controls - with a concurrent health probe. Oracle: whatever comes back parses under the harness' strict HTTP/1.1 response grammar; malformed-by-grammar requests get >= 400; after the batch a health request on a fresh connection returns 200 'ok'; the server closes cleanly at the end. non-trivial = script that was answered, or cut inside the request; distinct by script".into();
+    ctx.rule = "batches of 1-8 concurrent connection scripts over raw TCP: random bytes; valid requests (4 shapes) cut at a generated offset (thorough: every offset) then FIN/RST/silence; 24 constructed-malformed requests (illegal method/target/version tokens, control bytes and missing colon in headers, non-numeric/conflicting/negative/overflowing content-length, bad chunk lines); oversized but well-formed requests (200 KiB header, 2000 headers, 100 KiB target, 3 MiB body); HTTP/2 preface + garbage; TLS ClientHello; request to a panicking handler; bogus upgrade attempts; valid controls - with a concurrent health probe. Oracle: whatever comes back parses under the harness' strict HTTP/1.1 response grammar; malformed-by-grammar requests get >= 400; after the batch a health request on a fresh connection returns 200 'ok'; the server closes cleanly at the end. non-trivial = script that was answered, or cut inside the request; distinct by script".into();
     ctx.assume("request-line spellings that lenient HTTP/1.1 parsers accept (bare LF, lower-case version, double space) are not required to be refused");
     ctx.max_shrink_iters = 200;
     let srt = tokio::runtime::Builder::new_multi_thread().worker_threads(3).enable_all().build().unwrap();
